@@ -244,6 +244,8 @@ func (w *World) call(in *Inst, fn int, x int32) (res int32, fail *Fail) {
 			in.Table[a.A] = in.P.PassiveElemFunc()
 		case AElemDrop:
 			in.ElemDropped = true
+		case AStdout, AOpen, AClose:
+			panic("plan model: WASI atoms are not modelled")
 		}
 	}
 	return acc + int32(fn) + 1, nil
